@@ -213,6 +213,9 @@ impl WriterThreadPool {
             .map_err(|_| WriteError::WriterThreadNotRunning { bucket_id })?;
         let mut full_append = reply_rx.await.map_err(|_| WriteError::NoThreadReply)??;
 
+        #[cfg(sierradb_verif)]
+        verif::pause("append.before_wait");
+
         full_append
             .sync_rx
             .wait_for(|write_offset| *write_offset >= full_append.write_offset)
@@ -845,6 +848,9 @@ impl WriterSet {
             )
         };
 
+        #[cfg(sierradb_verif)]
+        verif::pause("rollover.indexes_swapped");
+
         self.reader_pool.add_bucket_segment(
             old_bucket_segment_id,
             &old_reader,
@@ -1323,7 +1329,20 @@ fn validate_partition_sequence(
 /// Verification hooks (compiled only with `--cfg sierradb_verif`).
 #[cfg(sierradb_verif)]
 pub mod verif {
+    use std::sync::RwLock;
+
     use sierradb_protocol::ExpectedVersion;
+
+    type PauseHook = Box<dyn Fn(&'static str) + Send + Sync>;
+
+    /// Called at named points of the writer (no-op unless a harness installs a callback).
+    pub static PAUSE_HOOK: RwLock<Option<PauseHook>> = RwLock::new(None);
+
+    pub fn pause(point: &'static str) {
+        if let Some(hook) = PAUSE_HOOK.read().unwrap().as_ref() {
+            hook(point);
+        }
+    }
 
     /// Exposes the private `validate_partition_sequence` decision.
     pub fn validate_partition_sequence(expected: ExpectedVersion, next_partition_sequence: u64) -> bool {
